@@ -31,8 +31,50 @@ Proof.
   exact (wire_wf _ _ (wired_world_cfg inp w W) S).
 Qed.
 
-Lemma run01W_accepted inp w : wired_world inp = Some w -> run01W inp = run_world w (dec_ops inp).
+Lemma run01W_accepted_raw inp w : wired_world inp = Some w ->
+  run01W inp = L (sx_list (run_world w (dec_ops inp)) ++ [key_format_obs w]).
 Proof. intros W. unfold run01W. rewrite W. reflexivity. Qed.
+
+(** the monitors read one observation per event: the trailing key-format
+    element is not looked at *)
+Lemma length_run_states w : forall es s, length (run_states w s es) = length es.
+Proof. induction es as [|e t IH]; intros s; cbn [run_states]; [reflexivity|]. destruct (step w s e) as [s1 o]. cbn. rewrite IH. reflexivity. Qed.
+
+Lemma length_run_world w es : length (sx_list (run_world w es)) = length es.
+Proof.
+  unfold run_world. cbn [sx_list]. rewrite map_length, combine_length, length_run_states. apply Nat.min_id.
+Qed.
+
+Lemma mon01_run_extra w : forall es m os x, length os = length es ->
+  mon01_run w m es (os ++ x) = mon01_run w m es os.
+Proof.
+  induction es as [|e t IH]; intros m os x L; destruct os as [|o os']; cbn in L; try discriminate.
+  - destruct x; reflexivity.
+  - cbn [app mon01_run]. apply IH. lia.
+Qed.
+
+Lemma combine_extra {A B} : forall (l : list A) (os x : list B), length os = length l -> combine l (os ++ x) = combine l os.
+Proof.
+  induction l as [|a t IH]; intros os x L; destruct os as [|o os']; cbn in L; try discriminate; [reflexivity|].
+  cbn [app combine]. f_equal. apply IH. lia.
+Qed.
+
+Lemma mon01W_extra w es x : mon01W w es (L (sx_list (run_world w es) ++ x)) = mon01W w es (run_world w es).
+Proof.
+  unfold mon01W, mon01_world. cbn [sx_list]. rewrite mon01_run_extra; [reflexivity|apply length_run_world].
+Qed.
+
+Lemma mon05W_extra w es x : mon05W w es (L (sx_list (run_world w es) ++ x)) = mon05W w es (run_world w es).
+Proof.
+  unfold mon05W, mon05_world. cbn [sx_list]. rewrite combine_extra; [reflexivity|].
+  rewrite combine_length, length_run_states, Nat.min_id. apply length_run_world.
+Qed.
+
+Lemma mon08W_extra w es x : mon08W w es (L (sx_list (run_world w es) ++ x)) = mon08W w es (run_world w es).
+Proof.
+  unfold mon08W. cbn [sx_list]. rewrite combine_extra; [reflexivity|].
+  rewrite combine_length, length_run_states, Nat.min_id. apply length_run_world.
+Qed.
 
 Lemma run01W_refused inp : wired_world inp = None -> run01W inp = rejected.
 Proof. intros W. unfold run01W. rewrite W. reflexivity. Qed.
@@ -42,7 +84,7 @@ Theorem mon01W_silent inp w :
   wf_ops w [] (dec_ops inp) = true -> wf_tids (dec_ops inp) = true ->
   mon01W w (dec_ops inp) (run01W inp) = [].
 Proof.
-  intros W S A WO WT. rewrite (run01W_accepted inp w W). unfold mon01W.
+  intros W S A WO WT. rewrite (run01W_accepted_raw inp w W), mon01W_extra. unfold mon01W.
   rewrite mon01_world_on_model.
   rewrite (P01_final w (dec_ops inp) (wired_world_wf inp w W S A) WO WT). reflexivity.
 Qed.
@@ -58,7 +100,7 @@ Theorem mon05W_silent inp w :
   wf_ops w [] (dec_ops inp) = true -> wf_tids (dec_ops inp) = true ->
   mon05W w (dec_ops inp) (run01W inp) = [].
 Proof.
-  intros W S A WO WT. rewrite (run01W_accepted inp w W). unfold mon05W.
+  intros W S A WO WT. rewrite (run01W_accepted_raw inp w W), mon05W_extra. unfold mon05W.
   rewrite mon05_world_on_model. apply filter_enforced_nil.
   pose proof (wired_world_wf inp w W S A) as Hw.
   apply model_satisfies_C05; [exact WT|].
@@ -86,7 +128,7 @@ Qed.
     (C08's theorem needs no well-formedness hypothesis) *)
 Theorem mon08W_silent inp w : wired_world inp = Some w -> mon08W w (dec_ops inp) (run01W inp) = [].
 Proof.
-  intros W. rewrite (run01W_accepted inp w W).
+  intros W. rewrite (run01W_accepted_raw inp w W), mon08W_extra.
   change (mon08W w (dec_ops inp) (run_world w (dec_ops inp))) with (mon08_model w (dec_ops inp)).
   apply store_model_satisfies_C08.
 Qed.
